@@ -51,6 +51,7 @@ def run_case(case):
     from mpilot.arguments import Argument, ListArgument
 
     del verif_stubs.EXEC_LOG[:]
+    verif_stubs.FLAKY["fail"] = True
     libs = tuple(case.get("libraries", ["verif_stubs"]))
     out = {"steps": []}
     try:
@@ -78,6 +79,8 @@ def run_case(case):
         try:
             if act == "run":
                 prog.run()
+            elif act == "heal":
+                verif_stubs.FLAKY["fail"] = False
             elif act.startswith("result:"):
                 prog.commands[act.split(":", 1)[1]].result
             step["outcome"] = "return"
@@ -92,6 +95,8 @@ def run_case(case):
                 step["wrapped"] = type(inner).__name__
         step["executions"] = [n for n, _ in verif_stubs.EXEC_LOG]
         step["finished"] = {n: bool(c.is_finished) for n, c in prog.commands.items()}
+        step["results"] = {n: (c._result if isinstance(getattr(c, "_result", None), (int, float, type(None))) else repr(getattr(c, "_result", None))[:40])
+                           for n, c in prog.commands.items()}
         step["fed_unfinished"] = [(n, seen) for n, seen in verif_stubs.EXEC_LOG if any(not f for _, f in seen)]
         out["steps"].append(step)
     return out
